@@ -1,9 +1,12 @@
 """Runs the REAL System.privacyClass / Documentable.privacyClass on a tiny real System.
 stdin: JSON list of cases {'rules': [[level, pattern], ...], 'queries': [query, ...]}
-   query = ['obj', fullName]                  an object built by the AST builder
+   query = ['obj', fullName]                  ob.privacyClass of an object built by the AST builder
+         | ['vis', fullName]                  ob.isVisible     (result [0, 0/1])
+         | ['isp', fullName]                  ob.isPrivate     (result [0, 0/1])
          | ['ghost', parentFullName, name]    a bare model.Documentable (kind is None) under parent
 stdout: JSON list (one per case) of lists (one per query, in order, same System = same cache) of
-   [fullName, name, has_kind, is_module, result]   result = [0, level] | [1, errcode]
+   [fullName, name, has_kind, is_module, result, kind, parents]   result = [0, level] | [1, errcode];
+   kind 0 privacyClass 1 isVisible 2 isPrivate; parents = [[fullName, name, has_kind, is_module], ...] nearest first
 level: 0 HIDDEN, 1 PRIVATE, 2 PUBLIC.  errcode as in c13_qnmatch.py.
 Special case {'objects': 1} -> [[fullName, name, is_module], ...] of the fixed System.
 An optional key 'system': 'main' (default) | 'shapes' selects the System: 'shapes' holds functions, classes, methods,
@@ -24,6 +27,7 @@ MODULES = [
     ('', '__main__', None, False),
     ('def mod(): pass\nclass pkg: pass\n', 'pkg', 'pkg', False),     # pkg.pkg, pkg.pkg.mod, pkg.pkg.pkg: names that are other objects' full names
     ('_p = 1\n', 'Cls', None, False),
+    ('def inside(): pass\n', '__main__', 'pkg.sub', True),     # a PACKAGE named __main__ (Package is a Module)
 ]
 
 
@@ -82,16 +86,31 @@ def run_case(c):
         return [[o.fullName(), o.name, int(isinstance(o, model.Module))] for o in s.allobjects.values()]
     s = build(c['rules'], c.get('system', 'main'))
     out = []
+
+    def desc(o):
+        return [o.fullName(), o.name, int(o.kind is not None), int(isinstance(o, model.Module))]
     for q in c['queries']:
-        if q[0] == 'obj':
-            o = s.allobjects[q[1]]
-        else:
+        if q[0] == 'ghost':
             o = model.Documentable(s, q[2], s.allobjects[q[1]])
+        else:
+            o = s.allobjects[q[1]]
         try:
-            r = [0, LEVEL[o.privacyClass]]
+            if q[0] == 'vis':
+                v = o.isVisible
+                r = [0, int(v)] if isinstance(v, bool) else [1, [9, 'non-bool']]
+            elif q[0] == 'isp':
+                v = o.isPrivate
+                r = [0, int(v)] if isinstance(v, bool) else [1, [9, 'non-bool']]
+            else:
+                r = [0, LEVEL[o.privacyClass]]
         except Exception as e:  # noqa
             r = [1, errcode(e)]
-        out.append([o.fullName(), o.name, int(o.kind is not None), int(isinstance(o, model.Module)), r])
+        parents = []
+        p = o.parent
+        while p is not None:
+            parents.append(desc(p))
+            p = p.parent
+        out.append(desc(o) + [r, {'vis': 1, 'isp': 2}.get(q[0], 0), parents])
     return out
 
 
